@@ -14,7 +14,7 @@ META = {
     "functions": ["behave.tag_matcher.ActiveTagMatcher.should_exclude_with/should_run_with/is_tag_group_enabled/group_active_tags_by_category/"
                   "select_active_tags/make_tag_pattern/is_tag_negated", "behave.tag_matcher.ValueObject/NumberValueObject/BoolValueObject.matches",
                   "behave.tag_matcher.CompositeTagMatcher.should_exclude_with", "behave.tag_matcher.ActiveTagValueProvider/CompositeActiveTagValueProvider.get"],
-    "bounds": {"quick": "tag sequences of <=2 slots over 22 tag texts (incl. signed numbers) (positive/negative/alias prefixes for 3 categories, malformed values, unknown "
+    "bounds": {"quick": "tag sequences of <=2 slots over 24 tag texts (incl. signed numbers, mixed-case boolean words) (positive/negative/alias prefixes for 3 categories, malformed values, unknown "
                         "category, ordinary tags) - order matters and is enumerated; current values symbolic: string category over 4 values or unknown, "
                         "numeric category an unbounded integer (compare ge / le / eq) or unknown, boolean category; provider kinds dict / "
                         "ActiveTagValueProvider with lazy callables / composite provider; composite matcher of two; two-decision histories: lazy value objects "
@@ -27,7 +27,7 @@ META = {
 
 TAGS = [None, "use.with_os=win", "use.with_os=linux", "not.with_os=win", "only.with_os=linux", "active.with_os=win", "not_active.with_os=linux",
         "use.with_ver=3", "use.with_ver=10", "not.with_ver=5", "not_active.with_ver=10", "use.with_ver=abc", "not.with_ver=", "use.with_ver=-5", "not.with_ver=+3",
-        "use.with_flag=yes", "not.with_flag=off", "use.with_flag=maybe", "use.with_nosuch=1", "not.with_nosuch=1", "wip", "use.with_os"]
+        "use.with_flag=yes", "not.with_flag=off", "use.with_flag=maybe", "use.with_flag=False", "not.with_flag=NO", "use.with_nosuch=1", "not.with_nosuch=1", "wip", "use.with_os"]
 OS_VALUES = ["win", "linux", "", "Win"]
 POSITIVE = ("use", "only", "active")
 NEGATIVE = ("not", "not_active", "not_on")      # "not_on": custom negative prefix of the custom-prefixes variant
